@@ -192,6 +192,16 @@ def check_batch(o):
                         and abs(a.noise_variance() - b.noise_variance()) < 1e-12 and abs(a.original_variance() - orig) < 1e-9 * max(1, orig))
                 if not same:
                     bad.append((tag + ": trimming to %d components differs from building with max_n_components" % j, {}, None))
+                # ... and the object-backed classes built with the same options (shapes, masked images)
+                objs = [("PCAModel(masked images)", [templ_m.from_vector(x) for x in X])]
+                if X.shape[1] % 2 == 0:
+                    objs.append(("PCAModel", [PointCloud(x.reshape(-1, 2)) for x in X]))
+                for otag, samples in objs:
+                    ob = PCAModel(samples, centre=centre, max_n_components=j)
+                    if not (ob.n_components == j and ob.n_samples == len(X) and L.close(ob._eigenvalues, b._eigenvalues, 1e-9)
+                            and abs(ob.original_variance() - orig) < 1e-9 * max(1, orig) and abs(ob.noise_variance() - b.noise_variance()) < 1e-9):
+                        bad.append((otag + ": built with max_n_components=%d it has %d components / n_samples %r (the vector model: %d / %d)" % (
+                            j, ob.n_components, ob.n_samples, b.n_components, b.n_samples), {}, None))
     return bad
 
 
@@ -237,5 +247,35 @@ def check_incr(o):
     return bad
 
 
+def check_blocks(o):
+    """Blocks.tla: the blocked in-place products of menpo.math.linalg against the plain product (integer matrices: exact)"""
+    from menpo.math.linalg import dot_inplace_left, dot_inplace_right
+
+    bad = []
+    c = o["case"]
+    n, b, k, small = c["n"], c["b"], c["k"], c["small"]
+    rng = np.random.RandomState(n * 100 + b * 10 + k)
+    tag = "n=%d, block_size=%d, inner=%d, small=%d" % (n, b, k, small)
+    # left: a (n x k) . b (k x small), written into a[:, :small]
+    A = rng.randint(-4, 5, size=(n, k)).astype(float)
+    B = rng.randint(-4, 5, size=(k, small)).astype(float)
+    want = A @ B
+    A2, B2 = A.copy(), B.copy()
+    r = dot_inplace_left(A2, B2, block_size=b)
+    if r.shape != want.shape or not np.array_equal(r, want) or not np.array_equal(B2, B) or not np.shares_memory(r, A2):
+        bad.append(("dot_inplace_left differs from the plain product (%s)" % tag, {"blocks": o["blocks"]}, None))
+    # right: a (small x k) . b (k x n), written into b[:small]
+    A = rng.randint(-4, 5, size=(small, k)).astype(float)
+    B = rng.randint(-4, 5, size=(k, n)).astype(float)
+    want = A @ B
+    A2, B2 = A.copy(), B.copy()
+    r = dot_inplace_right(A2, B2, block_size=b)
+    if r.shape != want.shape or not np.array_equal(r, want) or not np.array_equal(A2, A) or not np.shares_memory(r, B2):
+        bad.append(("dot_inplace_right differs from the plain product (%s)" % tag, {"blocks": o["blocks"]}, None))
+    return bad
+
+
 def run_case(o):
+    if "blocks" in o:
+        return check_blocks(o)
     return check_batch(o) if o["case"]["kind"] == "batch" else check_incr(o)
